@@ -231,6 +231,9 @@ def calls(fam: str, a: dict) -> List[Tuple[str, List[Any], Callable[[], Any]]]:
         subs = np.array([[1, 1], [a["minrow"], a["mincol"]]])
         vals = np.array([[1.0], [2.0]])
         out.append(("sptenmat.__init__", [subs, vals], lambda: ttb.sptenmat(subs, vals, I([0]), I([1, 2]), (2, 3, 2))))
+    elif fam == "nvecs_args":
+        for k, o in holders(a["shape"], ["dense", "sparse", "ktensor", "ttensor"]):
+            out.append((f"{type(o).__name__}.nvecs", [o], (lambda o=o: o.nvecs(int(a["n"]), int(a["r"])))))
     elif fam == "sym_groups":
         X = mk_dense([2] * a["N"])
         g = I(a["grps"]) if len(a["grps"]) > 1 else I(a["grps"][0])
